@@ -735,6 +735,49 @@ fn c07_blocking_two() {
     });
 }
 
+/// a thread parked in wait_blocking, a failing initialiser and a second initialiser: the hand-over
+/// notification must reach the second initialiser (not the passive waiter), and everybody finishes
+fn c08_wait_blocking_handover() {
+    model(2, || {
+        let cell = std::sync::Arc::new(OnceCell::<usize>::new());
+        let c1 = cell.clone();
+        let h1 = spawn(move || *c1.wait_blocking());
+        let c2 = cell.clone();
+        let h2 = spawn(move || {
+            let r: Result<&usize, ()> = c2.get_or_try_init_blocking(|| Err(()));
+            r.map(|v| *v).unwrap_or(7)
+        });
+        let v = *cell.get_or_init_blocking(|| 7);
+        assert_eq!(v, 7);
+        assert_eq!(h1.join().unwrap(), 7);
+        assert_eq!(h2.join().unwrap(), 7);
+    });
+}
+
+/// Barrier of 2. A released-but-unpolled wait of generation 0 is dropped, which forwards its
+/// notification to a waiter of generation 1; that waiter re-checks on one thread while the second
+/// arrival of generation 1 comes in on another: both must return.
+fn c09_cancel_race() {
+    model(3, || {
+        let b = Arc::new(Barrier::new(2));
+        let mut x = Box::pin(b.wait());
+        assert!(poll_once(x.as_mut()).is_pending()); // generation 0, first arrival
+        let mut y = Box::pin(b.wait());
+        assert!(poll_once(y.as_mut()).is_ready()); // leader of generation 0; x is notified
+        let mut z = Box::pin(b.wait());
+        assert!(poll_once(z.as_mut()).is_pending()); // generation 1, first arrival
+        drop(x); // notified, never polled again: the notification goes to z
+        let b2 = b.clone();
+        let h = spawn(move || {
+            block_on(b2.wait()); // second arrival of generation 1, on another thread
+        });
+        block_on(z.as_mut()); // z re-checks concurrently
+        h.join().unwrap();
+        drop(z);
+        drop(y);
+    });
+}
+
 // ---------------------------------------------------------------- cancellation races (C10)
 
 fn poll_once<F: Future>(f: std::pin::Pin<&mut F>) -> Poll<F::Output> {
@@ -828,6 +871,8 @@ const ALL: &[(&str, fn())] = &[
     ("c09_blocking", c09_blocking),
     ("c08_blocking", c08_blocking),
     ("c07_blocking_two", c07_blocking_two),
+    ("c08_wait_blocking_handover", c08_wait_blocking_handover),
+    ("c09_cancel_race", c09_cancel_race),
     ("c10_mutex_cancel", c10_mutex_cancel),
     ("c10_rw_cancel", c10_rw_cancel),
     ("c10_sem_cancel", c10_sem_cancel),
